@@ -1030,6 +1030,30 @@ func genC06(g *Gen, tier string, emit func(op string, args ...string)) {
 					"D0:" + itoa(pr[0]) + ":" + a, "d2", "F1:2", "F0:2", "Z"}, ","))
 			}
 		}
+		// twenty datagrams of garbage, then a valid request: the server keeps serving
+		{
+			cmds := []string{"S0", "s0"}
+			for k := 0; k < 20; k++ {
+				var junk []byte
+				switch k % 5 {
+				case 0:
+					junk = g.RandBytes(g.Pick(0, 1, 2, 19))
+				case 1:
+					junk = g.wireImage()
+				case 2:
+					junk = g.RandBytes(g.Pick(4096, 4097, 4500))
+				case 3:
+					junk = accessRequest(byte(k), "x")
+					junk[len(junk)-2] = 9
+				default:
+					junk = accountingRequest(byte(k), []byte("wrong"))
+				}
+				cmds = append(cmds, "D0:"+itoa(k%2)+":"+hx(junk), "d"+itoa(k))
+			}
+			cmds = append(cmds, "D0:0:"+hx(accessRequest(77, "alive")), "d20", "F20:2", "Z")
+			emit("scenario", "0", sec, strings.Join(cmds, ","))
+			emit("scenario", "1", sec, strings.Join(cmds, ","))
+		}
 		for _, peers := range [][]int{{0, 1}, {1, 0}, {0, 1, 0}, {0, 0}} {
 			var pre []string
 			for t, pr := range peers {
@@ -1110,6 +1134,14 @@ func genC06(g *Gen, tier string, emit func(op string, args ...string)) {
 					d[len(d)-2] = 9
 				case 7:
 					d = g.RandBytes(g.Pick(0, 5, 19, 20, 25))
+					switch g.Intn(4) {
+					case 0: // any wire image the packet generator knows (well-formed or damaged)
+						d = g.wireImage()
+					case 1: // a maximal datagram, and longer ones (the read buffer cuts at 4096)
+						d = g.RandBytes(g.Pick(4095, 4096, 4097, 4100, 5000))
+						d[0] = byte(g.Pick(1, 4, 12))
+						d[2], d[3] = byte(g.Pick(0x10, 0x0f)), byte(g.Pick(0, 1, 0xff))
+					}
 				case 8: // Status-Server
 					d = accessRequest(id)
 					d[0] = 12
